@@ -5,7 +5,7 @@ from __future__ import annotations
 import ast
 
 from ..engine.buflen import BufLen
-from ..engine.context import Context, compare_parts, is_membership
+from ..engine.context import Context, compare_parts, expand, is_membership
 from ..engine.loader import dotted, walk_expr, walk_own
 from ..engine.report import norm_stmt
 from ..engine.terms import contains, show, strip_sites
@@ -691,7 +691,7 @@ def _g3(ctx: Context) -> None:
                 t = strip_sites(T.of(cfg, r, r.exprs[0])) if r.exprs else ("const", None)
                 if not contains(t, lambda s: s[0] == "call" and s[1][0] == "glob" and s[1][1].endswith("decode_bytes") or s[0] == "call" and s[1][0] == "glob" and s[1][1].endswith("decode_bytearray")):
                     ok = False
-                arg_names = {x.id for x in ast.walk(r.exprs[0]) if isinstance(x, ast.Name)} if r.exprs else set()
+                arg_names = {x.id for x in ast.walk(expand(f.node, r.exprs[0], only=lambda nm: nm != bufname)) if isinstance(x, ast.Name)} if r.exprs else set()
                 if bufname not in arg_names:
                     ok = False
         ck.check("C15.G3", ok, "FragmentLast: the fragment is appended, then the whole buffer is decoded and returned",
